@@ -112,6 +112,48 @@ template <typename T> Sx pure_case(std::string const& cmd, Sx const& a)
         if (!e.exact()) throw std::runtime_error("select: canonical number not reproduced by the engine");
         return Sx::list({Sx::num(r)});
     }
+    if (cmd == "userloop")
+    {
+        // VEGAS driven by the user's own loop (chkpt.pdf(), vegas_iteration, chkpt.add(), chkpt.rollback()) and hep::vegas with a callback
+        // that takes the checkpoint by non-const reference and discards an iteration: whatever the history, the state the next iteration
+        // samples with is the refinement of the LAST result the checkpoint holds now.  Self-checking, C++ only (args: variant calls)
+        std::string const variant = a.at(0).Y_(); std::size_t const calls = a.at(1).N_();
+        Ctx ctx; g_ctx = &ctx; ctx.seed = a.at(2).N_();
+        auto f = [](hep::vegas_point<T> const& p) { T x = p.point()[0]; return x * x * x * T(4.0) + p.point()[1]; };
+        auto integrand = hep::make_integrand<T>(f, 2);
+        auto chk = hep::make_vegas_chkpt<T, script_engine>(5, T(1.5), script_engine(0));
+        std::vector<std::string> bad;
+        auto same = [](hep::vegas_pdf<T> const& x, hep::vegas_pdf<T> const& y) {
+            if (x.bins() != y.bins() || x.dimensions() != y.dimensions()) return false;
+            for (std::size_t d = 0; d != x.dimensions(); ++d) for (std::size_t b = 0; b <= x.bins(); ++b) if (!(x.bin_left(d, b) == y.bin_left(d, b))) return false;
+            return true; };
+        if (variant == "loop")
+        {
+            script_engine gen(0);
+            chk.dimensions(2);
+            hep::vegas_pdf<T> last_used = chk.pdf();
+            for (int it = 0; it != 3; ++it) { auto pdf = chk.pdf(); last_used = pdf; auto r = hep::vegas_iteration(integrand, calls, pdf, gen); chk.add(r, gen); }
+            auto next = chk.pdf();                          // the user looks at the grid of the next iteration ...
+            chk.rollback(chk.results().size() - 1);         // ... discards the last iteration ...
+            // ... and repeats it with other calls on the grid still held from before (half of the time; otherwise asks the checkpoint again)
+            auto again = (ctx.seed & 1) ? last_used : chk.pdf();
+            auto r = hep::vegas_iteration(integrand, 2 * calls + 1, again, gen); chk.add(r, gen);
+            (void) next;
+        }
+        else
+        {
+            // a callback that discards iteration 2 once (the documentation only asks that it accepts the checkpoint)
+            struct Discard { bool done = false; bool operator()(VChk<T>& c) { if (!done && c.results().size() == 2) { done = true; c.rollback(1); } return true; } } cb;
+            chk = hep::vegas(integrand, std::vector<std::size_t>{calls, calls + 3, calls, calls + 1}, chk, cb);
+        }
+        auto const& rs = chk.results();
+        for (std::size_t k = 0; k + 1 < rs.size(); ++k)
+            if (!same(rs[k + 1].pdf(), hep::vegas_refine_pdf(rs[k].pdf(), chk.alpha(), rs[k].adjustment_data()))) bad.push_back("result " + std::to_string(k + 1) + " was not sampled with the refinement of result " + std::to_string(k));
+        if (!rs.empty() && !same(chk.pdf(), hep::vegas_refine_pdf(rs.back().pdf(), chk.alpha(), rs.back().adjustment_data()))) bad.push_back("chkpt.pdf() is not the refinement of the last result");
+        Sx out = Sx::list({Sx::sym(bad.empty() ? "ok" : "violation"), Sx::num(rs.size())});
+        for (auto const& b : bad) out.add(Sx::str(b));
+        return out;
+    }
     if (cmd == "iterdirect")
     {
         // the *_iteration functions called directly, as users who drive the iterations themselves do: the generator is the caller's
